@@ -21,7 +21,7 @@ import numpy as np
 from engines import fakepool
 from engines.procwatch import run_forked
 from vlib import cats, gen
-from vlib.core import ERROR, HELD, VIOLATED, Check, Scratch, result
+from vlib.core import ERROR, HELD, VIOLATED, Check, Scratch, result, case_bits
 
 POLICIES = ["identity", "reverse", "rotate", "transpose", "first-last", "random"]
 
@@ -184,7 +184,7 @@ class C05(Check):
             out.append(result(VIOLATED, mechanism=mech, detail=dict(case=case, **detail), nontrivial=False))
 
         P = case.get("P", 4)
-        self.closed = "left" if case["seed"] % 2 else "right"  # objects pickled to workers must keep the closed side
+        self.closed = "left" if case_bits(case, "closed") % 2 else "right"  # objects pickled to workers must keep the closed side
         nontrivial = True
         with Scratch("c05") as tmp:
             self._build_world(tmp, rng, P)
